@@ -200,16 +200,20 @@ class ConnectionPool(object):
 
         _logger.debug('Check out %s', key)
 
-        connection = yield from host_pool.acquire()
+        try:
+            connection = yield from host_pool.acquire()
+        finally:
+            # Also when cancelled while waiting. The lock is not taken here:
+            # waiting for it is one more point at which a cancellation
+            # would lose the connection that was just checked out.
+            self._host_pool_waiters[key] -= 1
+
         connection.key = key
 
         # TODO: Verify this assert is always true
         # assert host_pool.count() <= host_pool.max_connections
         # assert key in self._host_pools
         # assert self._host_pools[key] == host_pool
-
-        with (yield from self._host_pools_lock):
-            self._host_pool_waiters[key] -= 1
 
         return connection
 
